@@ -27,6 +27,7 @@ const (
 	vkLeafref
 	vkLeafrefValue
 	vkLeafrefTwoInstances
+	vkMust
 )
 
 func vDkLeaf(leafElems []string, keyOf bool, keyVal string) *vLeaf {
@@ -114,6 +115,15 @@ func vScenarioValidators() (*vScenario, int) {
 		s1.uintChoice, s2.uintChoice = []uint64{1, 2}, []uint64{1, 2}
 		s1.tiedTo, s2.tiedTo = i1.id, i2.id
 		sc = &vScenario{leaves: []*vLeaf{d1, d2, i1, s1, i2, s2}, owners: []string{"A", "B"}}
+	case vkMust:
+		// list interface { leaf admin-state { default enable;
+		//   must "((. = 'enable') and starts-with(../name, 'system0')) or not(starts-with(../name, 'system0'))" } }
+		// on the interface system0: the admin-state of the resulting configuration has to be enable.
+		// The must-statement validator is switched ON for this scenario (the values the expression
+		// reads are concrete on every path, so yang-parser's XPath machine is simply interpreted).
+		adm := vIfLeaf("system0", "admin-state", false)
+		adm.enum = []string{"enable", "disable"}
+		sc = &vScenario{leaves: []*vLeaf{adm, vIfLeaf("system0", "description", false), vIfKeyLeaf("system0")}, owners: []string{"A", "B"}}
 	default:
 		// leaf patterntest { type string { length "7..10"; pattern 'hallo [0-9a-fA-F]*' } }
 		sc = &vScenario{leaves: []*vLeaf{
@@ -224,6 +234,19 @@ func (st *vState) validAspects(kind int) map[string]bool {
 		}
 		out["leafref-first-instance"] = ok1
 		out["leafref-second-instance"] = ok2
+	case vkMust:
+		// the admin-state in force: the ruling intent's, else the device's own, else the default (enable)
+		l := sc.leaves[0]
+		ok := true
+		for _, o := range sc.owners {
+			if st.pres[l.id][o] {
+				ok = verifrt.And(ok, verifrt.Implies(st.wins(l, o), st.val[l.id][o].s == "enable"))
+			}
+		}
+		if !st.managed(l) && st.rpres[l.id] {
+			ok = st.rval[l.id].s == "enable"
+		}
+		out["must"] = ok
 	case vkLeafList:
 		l := sc.leaves[0]
 		ok := true
@@ -279,7 +302,7 @@ func (st *vState) managed(l *vLeaf) bool {
 
 func vAllValid(a map[string]bool) bool {
 	v := true
-	for _, k := range []string{"mandatory", "min-max-elements", "range", "pattern", "length", "leafref", "leafref-name", "leafref-value", "leafref-first-instance", "leafref-second-instance"} {
+	for _, k := range []string{"must", "mandatory", "min-max-elements", "range", "pattern", "length", "leafref", "leafref-name", "leafref-value", "leafref-first-instance", "leafref-second-instance"} {
 		if b, ok := a[k]; ok {
 			v = verifrt.And(v, b)
 		}
@@ -352,6 +375,9 @@ func vRejected(rsp *sdcpb.TransactionSetResponse, err error) bool {
 func VerifVerdictIsValidity() {
 	sc, kind := vScenarioValidators()
 	env := vNewEnv()
+	if kind == vkMust {
+		env.ds.config.Validation.DisabledValidators.MustStatement = false
+	}
 	var pre *vState
 	if verifrt.Param("empty", 0) == 1 {
 		// empty stores; the configuration arrives in one transaction, possibly split over two intents
@@ -428,6 +454,9 @@ func VerifVerdictIsValidity() {
 	// differential oracle: the merged result as one intent on an empty datastore
 	if m != nil {
 		env2 := vNewEnv()
+		if kind == vkMust {
+			env2.ds.config.Validation.DisabledValidators.MustStatement = false
+		}
 		rsp2, err2 := vStep(env2, sc, "m1", []*vRequest{m}, false)
 		rejected2 := vRejected(rsp2, err2)
 		verifrt.Reach("differential-done")
